@@ -61,7 +61,7 @@ Definition check_transformer (s : site) (tr : transformer) : bool :=
   && delta_rows_ok (s_phases s) (site_row s (t_a tr)) (site_row s (t_b tr)) (site_row s (t_c tr))
                    (member_flags N (t_members tr))
   && qeq (site_limit s (t_b tr)) L && qeq (site_limit s (t_c tr)) L
-  && Qltb 0 L
+  && Qleb 0 L            (* a capacity of 0 kW is legal: the limit is then 0 A *)
   (* three secondary phases at 120 V line-to-neutral carry at most the rated capacity *)
   && Qleb (3 * 120 * L) (1000 * t_cap tr * (1 + eps50))
   (* and the limit is at most the (regenerated) formula of the factory evaluated at that capacity *)
@@ -115,7 +115,7 @@ Definition check_primary (s : site) (p : (nat * nat * nat) * nat) : bool :=
            && qeq (4 * nth i (site_row s pb) 0) (b - a)
            && qeq (4 * nth i (site_row s pc) 0) (c - b)) (seq 0 (n_site_stations s))
       && qeq (site_limit s pb) (site_limit s pa) && qeq (site_limit s pc) (site_limit s pa)
-      && Qltb 0 (site_limit s pa)
+      && Qleb 0 (site_limit s pa)
   end.
 
 Definition check_phases (s : site) : bool :=
